@@ -67,6 +67,10 @@ def prelude(p):
     p.fn("nothing", [], opt(Tp), Ctor(opt(Tp), "Non"), gens=["T"])
     p.fn("wrap2", [("x", Tp)], opt(opt(Tp)), Ctor(opt(opt(Tp)), "Som", Ctor(opt(Tp), "Som", Var("x"))), gens=["T"])
     p.fn("apply", [("f", TFn([Tp], Up)), ("x", Tp)], Up, CallV(Var("f"), Var("x")), gens=["T", "U"])
+    # a generic function used as a *value* inside generic code: its instance is fixed only when the enclosing one is
+    p.fn("through", [("x", Tp)], Tp, Call("apply", FnRef("id", targs=[Tp]), Var("x"), targs=[Tp, Tp]), gens=["T"])
+    p.fn("stored", [("x", Up)], Up, Block([Let("f", FnRef("id", targs=[Up]))], CallV(Var("f"), Var("x"))), gens=["U"])
+    p.fn("boxed_through", [("x", Tp)], box(Tp), Call("apply", FnRef("mkbox", targs=[Tp]), Var("x"), targs=[Tp, box(Tp)]), gens=["T"])
     p.fn("gshow", [("x", Tp)], STRING, TCall("Show", "show", Var("x")), gens=[("T", ["Show"])])
     p.fn("gshow_m", [("x", Tp)], STRING, TCall("Show", "show", Var("x"), form="method"), gens=[("T", ["Show"])])
     p.fn("twice", [("x", Tp)], STRING, Bin("+", Call("gshow", Var("x"), targs=[Tp]), Call("gshow", Var("x"), targs=[Tp])), gens=[("T", ["Show"])])
@@ -116,6 +120,10 @@ def programs(tier):
                                 Let("wi", Call("get_or", Var("w"), Var("wn"), targs=[opt(ta)]), ty=opt(ta))] + shown(Call("get_or", Var("wi"), va[-1], targs=[ta]), ta, sa)
                                + [Let("z", Call("wrap2", y, targs=[tb]), ty=opt(opt(tb))), Let("zn", Ctor(opt(tb), "Non"), ty=opt(tb)),
                                   Let("zi", Call("get_or", Var("z"), Var("zn"), targs=[opt(tb)]), ty=opt(tb))] + shown(Call("get_or", Var("zi"), vb[-1], targs=[tb]), tb, sb))
+        add(f"fnvalue:{a},{b}", shown(Call("through", x, targs=[ta]), ta, sa) + shown(Call("through", y, targs=[tb]), tb, sb)
+                                + shown(Call("stored", x, targs=[ta]), ta, sa) + shown(Call("stored", y, targs=[tb]), tb, sb)
+                                + shown(Call("unbox", Call("boxed_through", x, targs=[ta]), targs=[ta]), ta, sa)
+                                + shown(Call("apply", FnRef("id", targs=[tb]), y, targs=[tb, tb]), tb, sb))
         LA, LB = TAdt("List", ta), TAdt("List", tb)
         add(f"list:{a},{b}", [Let("l0", Ctor(LA, "Nil"), ty=LA), Let("l", Ctor(LA, "Cons", x, Ctor(LA, "Cons", va[-1], Var("l0"))), ty=LA),
                               println(Call("int32_to_string", Call("len", Var("l"), targs=[ta])))] + shown(Call("head_or", Var("l"), va[-1], targs=[ta]), ta, sa)
